@@ -49,6 +49,18 @@ def enc_dbl(x):
     return [s, limbs(num >> tz), e + tz]
 
 
+def fin(res):
+    """a float result that is not finite cannot be written down exactly: it travels as the exception-like outcome
+    'NonFiniteFloat', which the specification rejects (NoException) - never a crash of the driver"""
+    if res[0] != "e":
+        try:
+            if not math.isfinite(float(res[1])):
+                return ("e", "NonFiniteFloat")
+        except (TypeError, ValueError, OverflowError):
+            return ("e", "NotAFloat")
+    return res
+
+
 def dec_dbl(t):
     m = 0
     for d in t[1]:
@@ -568,23 +580,27 @@ def inv_traces(fmt, vs, label, isolate=True, apis=("np", "fix"), rng=None, shape
         for i in idx:
             V = enc_int(vs[i])
             (rx, rb) = sc[i]
+            rx = fin(rx)
             if rx[0] == "e" or rb[0] == "e":
                 evs.append(["raise", "inv_fp", V, rx[1] if rx[0] == "e" else rb[1]])
                 continue
             evs.append(["inv_fp", V, enc_dbl(rx[1]), enc_int(rb[1])])
             for (rx, rb) in sc_more.get(i, ()):
+                rx = fin(rx)
                 if rx[0] == "e" or rb[0] == "e":
                     evs.append(["raise", "inv_fp", V, rx[1] if rx[0] == "e" else rb[1]])
                 else:
                     evs.append(["inv_fp", V, enc_dbl(rx[1]), enc_int(rb[1])])
             if "np" in apis:
                 for (p, q) in [(fl[i], bk[i])] + more.get(i, []):
+                    p = fin(p)
                     if p[0] == "e" or q[0] == "e":
                         evs.append(["raise", "inv_np", V, p[1] if p[0] == "e" else q[1]])
                     else:
                         evs.append(["inv_np", V, enc_dbl(p[1]), enc_int(q[1])])
             if "fix" in apis and dp:
                 for (dx, db) in [dp[i]] + dp_more.get(i, []):
+                    dx = fin(dx)
                     if dx[0] == "e" or db[0] == "e":
                         evs.append(["raise", "inv_fix", V, dx[1] if dx[0] == "e" else db[1]])
                     else:
